@@ -40,7 +40,8 @@ type chainCase struct {
 	G       int       `json:"g"`      // kind "redispatch": number of global middleware (chain = G ++ redispatcher ++ G ++ inner)
 	B       int       `json:"b"`      // the nested chain starts after position b (the redispatcher, plus the never started tail)
 	CLog    [][]any   `json:"clog"`   // the log of the cursor machine (the code as written), exported for chains beyond the sentinel
-	Tail    int       `json:"tail"`   // 1: the redispatcher is a middleware of its route, the route's main handler follows it
+	Tail    int       `json:"tail"`
+	Other   bool      `json:"other"` // kind "redispatch": the nested dispatch is served by ANOTHER router (B.HandleContext(c))   // 1: the redispatcher is a middleware of its route, the route's main handler follows it
 }
 
 // recWriter is the underlying http.ResponseWriter: it records every call and can reply with short writes / errors.
@@ -91,6 +92,9 @@ func (w *swallowWriter) WriteHeader(int)             {}
 func (w *swallowWriter) Write(b []byte) (int, error) { return len(b), nil }
 
 var writeAPI int
+
+// chainOther: the router that serves the nested dispatch of a "redispatch" case with other=true
+var chainOther *rux.Router
 
 func opName(op []any) string { return op[0].(string) }
 func opInt(op []any, i int) int {
@@ -160,7 +164,11 @@ func mkHandler(run **chainRun, h int, script [][]any) rux.HandlerFunc {
 				callLib(c, op[1].(string))
 			case "redispatch":
 				c.Req.URL.Path = "/t"
-				c.Router().HandleContext(c)
+				if chainOther != nil {
+					chainOther.HandleContext(c) // a handler of router A hands its context to router B
+				} else {
+					c.Router().HandleContext(c)
+				}
 			case "subrouter":
 				// another router mounted here: it serves the request on a context of its own, writing through c.Resp
 				api := rux.New()
@@ -513,7 +521,14 @@ func chainRunOnce(s *Summary, c *chainCase, sp chainSplit, outerPrefix string, c
 				r.GET("/g/h/x/{id}", hs[b-1])
 			}
 			inner := hs[b+g:]
-			r.GET("/t", func(cx *rux.Context) {
+			tr := r // the router that owns the target route /t
+			chainOther = nil
+			if c.Other {
+				tr = rux.New()
+				tr.Use(hs[:g]...)
+				chainOther = tr
+			}
+			tr.GET("/t", func(cx *rux.Context) {
 				if len(cx.Params) != 0 { // a static route exposes no parameters (C02), also after a re-dispatch
 					cur.log = append(cur.log, []any{"static-route-with-params", len(cx.Params), false})
 				}
@@ -563,7 +578,13 @@ func chainRunOnce(s *Summary, c *chainCase, sp chainSplit, outerPrefix string, c
 		}
 		if c.Hook != nil {
 			inner := mkHandler(&cur, 0, c.Hook)
-			r.OnPanic = func(cx *rux.Context) {
+			hooked := r
+			if c.Kind == "redispatch" && c.Other && chainOther != nil {
+				// the hook belongs to the router that dispatches the nested chain; the outer router's own hook must stay out of it
+				hooked = chainOther
+				r.OnPanic = func(cx *rux.Context) { cur.log = append(cur.log, []any{"hook-of-the-wrong-router", 0, false}) }
+			}
+			hooked.OnPanic = func(cx *rux.Context) {
 				// the recovered value must be available under the documented key
 				v, ok := cx.Get(rux.CTXRecoverResult)
 				if _, isTok := v.(*panicToken); !ok || !(isTok || v == any(http.ErrAbortHandler)) {
